@@ -732,6 +732,10 @@ impl PosixRawReader {
                 .map(|fd| unsafe { BorrowedFd::borrow_raw(fd) })
         };
         loop {
+            // bytes already read from the tty are in our buffer: `select` can't see them
+            if timeout.is_none() && !self.tty_in.buffer().is_empty() {
+                return self.next_key(single_esc_abort).map(Event::KeyPress);
+            }
             let mut readfds = FdSet::new();
             if let Some(sig_pipe) = sig_pipe {
                 readfds.insert(sig_pipe);
